@@ -332,12 +332,20 @@ pub fn run(ctx: &Ctx) -> Report {
                     st.eval(1);
                     st.class_if(parse_san_move(&b, &t).is_ok(), "reader:mutated-accepted");
                     check_reader_string(&v, &t)?;
+                    // when the mutated text still has the shape of SAN, its components are known again
+                    if let Some(parts) = parse_parts(&t) {
+                        st.class("reader:mutated-text-with-component-shape");
+                        check_reader_parts(&v, &parts)?;
+                    }
                 }
             }
             for j in &rc.junk {
                 st.eval(1);
                 st.class_if(catch_unwind(AssertUnwindSafe(|| parse_san_move(&b, j).is_ok())).unwrap_or(false), "reader:junk-accepted");
                 check_reader_string(&v, j)?;
+                if let Some(parts) = parse_parts(j) {
+                    check_reader_parts(&v, &parts)?;
+                }
             }
             Ok(())
         },
